@@ -519,8 +519,27 @@ func runC01(p *core.Prog, r *core.Report, tier string) {
 						continue
 					}
 					for _, a := range ci.Common().Args {
-						if a == o && core.CountGuards(ds, ci.Common().StaticCallee(), attestationGuards()[0].g) > 0 {
+						if core.CountGuards(ds, ci.Common().StaticCallee(), attestationGuards()[0].g) == 0 {
+							continue
+						}
+						if a == o {
 							validated = true
+						}
+						// the signed value is a merge whose only feasible alternative is the validated one (the others
+						// are the nil results of failure exits, after which the entry returns)
+						if site, ok := entry.site.(ssa.Instruction); ok {
+							leaves := core.FeasibleLeaves(entry.fn, o, site)
+							if len(leaves) > 0 {
+								all := true
+								for _, lf := range leaves {
+									if lf.V != a {
+										all = false
+									}
+								}
+								if all {
+									validated = true
+								}
+							}
 						}
 					}
 				}
